@@ -233,3 +233,39 @@ PROPS['C18'] = dict(level='exploration', jobs=siphash_jobs,
                     'declarations (verif/gen_consts.py: NOP_TABLE_NS tables, NOP_INTERFACE/NOP_INTERFACE32 interfaces with NOP_METHODs, names incl. UTF-8) whose EntryList hash, wire hash, interface hash '
                     'and selectors are compared with values computed in Python under keys pinned as literals. Non-trivial = length >= 9 with length%8 != 0, or any byte >= 0x80.',
                     assumptions=['the Python and C++ reference implementations are independent of the library and of each other'])
+
+
+def rpc_jobs(b, prop, tier, seed):
+    jobs = []
+    pools = [(1, 8)] if tier == 'quick' else [(1, 8), (seed + 50, 40)]
+    for ps, cnt in pools:
+        bn = b.build_rpc(ps, cnt)
+        if not bn:
+            return None
+        n = min(cnt, 16)
+        for i in range(n):
+            jobs.append(_job('rpc:%d:%d' % (ps, cnt), bn, ['--prop', prop, '--tier', tier, '--seed', str(seed), '--shard', '%d/%d' % (i, n)], 'rpc_%d_%02d' % (ps, i)))
+    return jobs
+
+
+SETUP_EXTRA.append(lambda b: b.build_rpc(1, 8))
+PROPS['C14'] = dict(level='exploration', jobs=rpc_jobs,
+                    rule='Program generator verif/gen_ifaces.py: interfaces with 1-6 methods over 21 argument/return types (scalars, strings, containers, structures, tables, Optional, Variant, '
+                    'Result-derived returns), NOP_INTERFACE and NOP_INTERFACE32, hashed and manual selectors, member-function bindings with the instance as passthrough or lambda/free-function '
+                    'bindings, partial bindings, handler and call-site types that are fungible substitutes of the protocol types, C-string call sites (8 interfaces quick, +40 from VERIF_SEED thorough). '
+                    'Cases: rapidcheck histories of 1-8 steps on one connection through the unmodified SimpleMethodSender/SimpleMethodReceiver (Invoke of bound and unbound methods, truncated / '
+                    'field-mutated / selector-mutated requests); oracle = handler log + reference decoder. Non-trivial = >= 2 successful calls to different methods, or successful and failed requests mixed.',
+                    assumptions=['after a failed dispatch the connection is re-synchronised (framing is promised across successful calls only)', 'void returns and lambda bindings with passthrough arguments do not compile on the unchanged tree and are outside the domain'])
+
+
+def c10_jobs(b, prop, tier, seed):
+    a = codec_jobs(b, prop, tier, seed)
+    r = rpc_jobs(b, prop, tier, seed)
+    if a is None or r is None:
+        return None
+    return a + r
+
+
+PROPS['C10']['jobs'] = c10_jobs
+PROPS['C10']['rule'] += (' Plus the RPC layer: for generated interfaces every primitive-call index of the request writer, reply reader (SimpleMethodSender::SendMethod), '
+                         'request reader and reply writer (dispatcher) is failed once with a rotating error code.')
